@@ -251,6 +251,32 @@ def writes_sessions(n, seed):
 MODELS = {"P5": model_P5, "PW": model_PW, "P1": model_P1, "P2": model_P2, "P3": model_P3, "P4": model_P4}
 
 
+def model_PS(maxlen=4):
+    """PS: a monotone, terminating program for the custom-scheduler model (C18): commutativity, F(F x) = x,
+    a relation derived from F; inserts and unions interleaved with scheduler steps."""
+    p = Prog()
+    A = p.add("A", "con", [], "E"); B = p.add("B", "con", [], "E")
+    F = p.add("F", "con", ["E"], "E"); H = p.add("H", "con", ["E", "E"], "E")
+    R = p.add("R", "con", ["E"], "RelSort0", rel=True)
+    p.rsets.append(dict(name="rs0", kind="rules", subs=[]))
+    V = lambda n: {"v": n}
+    T = lambda f, a, o: dict(k="tab", f=f, a=a, o=o)
+    p.rules.append(dict(rs="rs0", name="comm", body=[T(H, [V(1), V(2)], V(3))],
+                        head=[dict(k="union", l=V(3), r={"f": H, "a": [V(2), V(1)]})]))
+    p.rules.append(dict(rs="rs0", name="ff", body=[T(F, [V(1)], V(2)), T(F, [V(2)], V(3))],
+                        head=[dict(k="union", l=V(3), r=V(1))]))
+    p.rules.append(dict(rs="rs0", name="rel", body=[T(F, [V(1)], V(2))], head=[dict(k="ins", t={"f": R, "a": [V(2)]})]))
+    t = lambda f, *a: {"f": f, "a": list(a)}
+    a, b = t(A), t(B)
+    cmds = [dict(k="ins", t=t(F, t(F, a))), dict(k="ins", t=t(H, a, b)), dict(k="ins", t=t(H, t(F, a), b)),
+            dict(k="union", a=a, b=b), dict(k="union", a=t(F, a), b=b)]
+    hv = [sessgen.head_free_vars(r) for r in p.rules]
+    return p, dict(prog=p.struct(), active=[1, 2, 3], cmds=cmds, maxlen=maxlen, univ=[], rs="rs0", hv=hv), None
+
+
+MODELS["PS"] = model_PS
+
+
 def write_model(name, path, **kw):
     p, m, inv = MODELS[name](**kw)
     m.setdefault("laws", [])
